@@ -318,6 +318,17 @@ class Interp:
                         inst.weights[first] = float(op["val"])
                         if len(self.insts) > 2:
                             self.shared_hit = True
+                elif k == "add_zero_edge_in_place":
+                    # update_template(edges=..., in_place=True) with an edge that changes nothing (weight 0 next to an
+                    # existing edge of the same pair): later edge updates must still reach the edges of the template
+                    j = self._pick(op)
+                    inst = self.insts[j]
+                    top = [(i, e) for i, e in enumerate(self.rm.edges) if not self.spec["edges"][i].get("scope")
+                           and not self.spec["edges"][i].get("et") and self.spec["edges"][i].get("d") is None]
+                    if top:
+                        i, e = top[op["i"] % len(top)]
+                        inst.circ.update_template(edges=[(e["s"], e["t"], None, {"weight": 0.0})], in_place=True)
+                        inst.extra_pairs = getattr(inst, "extra_pairs", set()) | {(e["s"], e["t"])}
                 elif k == "fork":
                     j = self._pick(op)
                     inst = self.insts[j]
@@ -337,6 +348,7 @@ class Interp:
                             new = copy.deepcopy(c)
                         self.insts.append(Inst(f"fork{len(self.insts) - 1}(of {inst.label}, mode {mode})", new,
                                                dict(inst.values), list(inst.weights), None, self.spec))
+                        self.insts[-1].extra_pairs = set(getattr(inst, "extra_pairs", ()))
                 elif k == "apply_values":
                     j = self._pick(op)
                     inst = self.insts[j]
@@ -356,8 +368,9 @@ class Interp:
                     pairs = {}
                     for i, e in enumerate(self.rm.edges):
                         pairs.setdefault((e["s"], e["t"]), []).append(i)
-                    single = sorted(i for v_ in pairs.values() if len(v_) == 1 for i in v_
-                                    if not self.spec["edges"][i].get("scope"))
+                    # (edge_values address all edges of a (source, target) pair: only pairs with a single edge are used)
+                    single = sorted(i for pr, v_ in pairs.items() if len(v_) == 1 and pr not in getattr(inst, "extra_pairs", ())
+                                    for i in v_ if not self.spec["edges"][i].get("scope"))
                     if single and op["i"] % 3 == 0:
                         i = single[op["i"] % len(single)]
                         e = self.rm.edges[i]
@@ -400,8 +413,8 @@ class Interp:
 
 def op_strategy(it):
     return st.fixed_dictionaries({"op": st.sampled_from(["update_scalar", "update_scalar", "update_wildcard",
-                                                         "update_wildcard", "update_edge", "fork", "apply_values",
-                                                         "observe"]),
+                                                         "update_wildcard", "update_edge", "update_edge", "fork", "apply_values",
+                                                         "observe", "add_zero_edge_in_place"]),
                                   "i": st.integers(0, 40), "j": st.integers(0, 3), "array": st.booleans(),
                                   "val": st.sampled_from([0.37, -0.62, 1.45, 2.2, -1.1, 0.05])})
 
